@@ -134,4 +134,16 @@ def history (c : Cluster) : List CStep → Nat → List Op
   | [], _ => []
   | s :: r, i => localOpsOf c s i ++ history (cstep c s) r i
 
+/-- the merges node `i` performs in one complete simultaneous state-sync round among the running
+nodes `R`: the LocalState of every OTHER running node, all computed from the cluster before the
+round, in the order of `R` -/
+def syncOps (c : Cluster) (R : List Nat) (i : Nat) (wall : Nat) : List Op :=
+  (R.filter (· ≠ i)).filterMap fun j => c.nodes[j]?.map fun nj =>
+    Op.merge (localState nj).1 (localState nj).2.1 (localState nj).2.2 wall
+
+/-- one complete simultaneous state-sync round among `R` (nodes not in `R` are down / untouched;
+merges put nothing on the wire) -/
+def syncRound (c : Cluster) (R : List Nat) (wall : Nat) : Cluster :=
+  { c with nodes := c.nodes.mapIdx fun i n => if i ∈ R then run n (syncOps c R i wall) else n }
+
 end SerfModel.Cluster
